@@ -88,6 +88,39 @@ func pairEdges(md *meshData, class []int) pairing {
 	return p
 }
 
+// onlyWeldPinches: every directed edge used by more than one face has an endpoint lying within the weld
+// distance of a lattice point at which, per the sampled values, a crossing lies within the weld distance.
+func onlyWeldPinches(md *meshData, s *subject) bool {
+	count := map[[2]int]int{}
+	for t := 0; t+2 < len(md.Idx); t += 3 {
+		a, b, c := md.Idx[t], md.Idx[t+1], md.Idx[t+2]
+		if a == b || b == c || a == c {
+			continue
+		}
+		count[[2]int{a, b}]++
+		count[[2]int{b, c}]++
+		count[[2]int{c, a}]++
+	}
+	near := func(v int) bool {
+		p := md.P[v]
+		var q [3]int
+		for k := 0; k < 3; k++ {
+			u := p[k] * s.cpu
+			q[k] = int(math.Round(u))
+			if math.Abs(u-float64(q[k])) > 0.001*s.cpu+2e-4 {
+				return false
+			}
+		}
+		return s.pinchAt(q)
+	}
+	for e, n := range count {
+		if n > 1 && !near(e[0]) && !near(e[1]) {
+			return false
+		}
+	}
+	return true
+}
+
 // what the oracle needs to know about the case
 type subject struct {
 	site    string // polyform entry point that produced the mesh
@@ -103,6 +136,8 @@ type subject struct {
 	// seamTrigger is non-empty when the sampled input contains the trigger of the known
 	// block-seam weld defect (see seamTrigger in c09.go); it only selects the violation class.
 	seamTrigger string
+	// pinchAt tells, from the SAMPLED values only, whether the weld can collapse crossings at lattice point q
+	pinchAt func(q [3]int) bool
 }
 
 type surfaceObs struct {
@@ -158,7 +193,14 @@ func judge(res *run.Result, s *subject, md *meshData) *surfaceObs {
 		viol("degenerate-face", fmt.Sprintf("%d of %d faces are degenerate (repeated vertex or zero area); %s", degenerate, ob.Tris, firstDeg))
 	}
 	byIdx := pairEdges(md, ids)
-	if byIdx.Unmatched > 0 || byIdx.Multi > 0 {
+	if byIdx.Unmatched == 0 && byIdx.Multi > 0 && s.pinchAt != nil && onlyWeldPinches(md, s) {
+		// safety net of the stated weld-granularity rule: balanced counts, every doubled edge hangs on a
+		// vertex that the sampled values put within the weld distance of a lattice point
+		res.Count("outcomes_classified_as_weld_pinch", 1)
+		if res.Inconclusive == "" {
+			res.Inconclusive = fmt.Sprintf("degenerate (weld pinch): %d directed edges are used twice, none is unmatched, and each of them ends at a lattice point whose sampled value puts a crossing within the 0.001 weld of it; %s", byIdx.Multi, byIdx.First)
+		}
+	} else if byIdx.Unmatched > 0 || byIdx.Multi > 0 {
 		merged := ref.MergePositions(md.P, 1e-9*h)
 		byPos := pairEdges(md, merged)
 		if byPos.Unmatched == 0 && byPos.Multi == 0 {
